@@ -87,7 +87,9 @@ func alphaStr(f *Func, e ast.Node) string {
 	// replace whole-word identifiers
 	var out strings.Builder
 	i := 0
-	isId := func(c byte) bool { return c == '_' || c >= 'a' && c <= 'z' || c >= 'A' && c <= 'Z' || c >= '0' && c <= '9' }
+	isId := func(c byte) bool {
+		return c == '_' || c >= 'a' && c <= 'z' || c >= 'A' && c <= 'Z' || c >= '0' && c <= '9'
+	}
 	for i < len(s) {
 		if isId(s[i]) && !(s[i] >= '0' && s[i] <= '9') {
 			j := i
